@@ -3,6 +3,8 @@ import numpy as np
 
 from vmon import diff, gen, instr, models, oracles, scen
 
+from vmon.scale import S
+
 ID = 'C06'
 RULE = ('cases = a stacked call (1..3 leading axes of sizes 1..5, different content per slice) versus the same call on every '
         'slice alone: fit and log_pdf of the eight single distributions, fit/predict of cACGMM, cWMM, cBMM, GMM (3 covariance '
@@ -13,6 +15,7 @@ MIN_DECIDED = {'quick': 150, 'thorough': 1500}
 CASE_TIMEOUT = {'quick': 300, 'thorough': 900}
 ASSUMPTIONS = ['results are compared through gauge-free functionals (covariance matrices, projectors) with rtol 1e-10 (Bingham: 1e-5, its M-step is a numeric solve)']
 FAMS = ['gauss', 'diag', 'spher', 'ccsg', 'vmf', 'watson', 'cacg', 'bingham']
+CACG_KW = {}
 MIX = ['cacgmm', 'cwmm', 'cbmm', 'gmm', 'vmfmm']
 
 
@@ -25,7 +28,7 @@ def plan(tier, seed):
     rng = np.random.default_rng([seed, 106])
     pick = lambda xs: xs[int(rng.integers(len(xs)))]
     cases, i = [], 0
-    n = 16 if tier == 'quick' else 160
+    n = S(tier, 16, 160)
     for fam in FAMS:
         for r in range(n if fam != 'bingham' else max(4, n // 4)):
             D = int(rng.integers(2, 7)) if fam in ('watson', 'cacg', 'bingham', 'vmf') else int(rng.integers(1, 7))
@@ -34,7 +37,7 @@ def plan(tier, seed):
             lead = rand_lead(rng, small=(fam == 'bingham'))
             cases.append(dict(lane='dist', fam=fam, D=D, N=int(rng.integers(D + 3, 30)), lead=lead, saliency=bool(rng.integers(0, 2)), rs=[seed, 6, i]))
             i += 1
-    m = 14 if tier == 'quick' else 140
+    m = S(tier, 14, 140)
     for kind in MIX:
         for r in range(m if kind != 'cbmm' else max(3, m // 6)):
             K = int(rng.integers(2, 5)); D = int(rng.integers(2, 7))
@@ -43,12 +46,15 @@ def plan(tier, seed):
             lead = rand_lead(rng, small=(kind == 'cbmm'))
             o = {'wca': [-1], 'saliency': pick(['none', 'pos'])}
             if kind == 'cacgmm':
-                o.update(covariance_norm=pick(['eigenvalue', 'trace', False]), hermitize=pick([True, False]), affiliation_eps=pick([0.0, 1e-10]))
+                o.update(covariance_norm=pick(['eigenvalue', 'trace', False]), hermitize=pick([True, False]), affiliation_eps=pick([0.0, 1e-10]), eigenvalue_floor=pick([1e-10, 1e-10, 0.05]))
                 o['mask'] = bool(rng.uniform() < 0.25)
             if kind == 'gmm':
                 o['covariance_type'] = pick(['full', 'diagonal', 'spherical'])
             N = int(rng.integers(4 * K + D, 8 * K + D + 10)) if kind != 'gmm' else int(rng.integers(6 * K + 2 * D, 10 * K + 2 * D + 10))
-            cases.append(dict(lane='mixture', kind=kind, cls='gauss', K=K, N=N, D=D, lead=lead, init=pick(['dirichlet:1', 'blur:0.3', 'singleton']),
+            ini = pick(['dirichlet:1', 'blur:0.3', 'singleton', 'singleton-inner'])
+            if ini.startswith('singleton'):
+                o.pop('mask', None)      # the trainer validates mask.shape == initialization.shape: explicit exception, not a stacking question
+            cases.append(dict(lane='mixture', kind=kind, cls='gauss', K=K, N=N, D=D, lead=lead, init=ini,
                               iters=int(pick([1, 2, 3, 5])) if kind != 'cbmm' else 1, opts=o, rs=[seed, 7, i]))
             i += 1
     return cases
@@ -75,7 +81,7 @@ def _fit_fn(fam):
     if fam == 'watson':
         return lambda y, s: d.ComplexWatsonTrainer().fit(y, saliency=s)
     if fam == 'cacg':
-        return lambda y, s: d.ComplexAngularCentralGaussianTrainer().fit(y, iterations=4)
+        return lambda y, s: d.ComplexAngularCentralGaussianTrainer().fit(y, iterations=4, **CACG_KW)
     if fam == 'bingham':
         return lambda y, s: ComplexBinghamTrainer(max_concentration=500).fit(y, saliency=s)
 
@@ -91,6 +97,10 @@ def run_dist(case, R):
         y = np.einsum('...ab,...nb->...na', np.linalg.cholesky(gen.hpd(rng, D, cond=10.0, lead=lead)), gen.cnormal(rng, (*lead, N, D)))
     sal = rng.uniform(0.1, 1.0, size=(*lead, N)) if (case['saliency'] and fam != 'cacg') else None
     x = (rng.standard_normal((*lead, 5, D)) if real else gen.cnormal(rng, (*lead, 5, D)))
+    CACG_KW.clear()
+    if fam == 'cacg':
+        CACG_KW.update(covariance_norm=[None, 'eigenvalue', 'trace', False][int(rng.integers(1, 4))], eigenvalue_floor=float(rng.choice([1e-10, 0.05, 0.2])))
+        y = y * 10 ** rng.uniform(-2, 2, size=(*lead, 1, 1))           # slices with different spectra / scales
     fit = _fit_fn(fam)
     rtol = 1e-5 if fam == 'bingham' else 1e-10
     # per slice -------------------------------------------------------------------------------------------------
@@ -147,7 +157,11 @@ def run_mixture(case, R):
     s = scen.build(case)
     kind, lead = s.kind, s.lead
     tol = 1e-5 if kind == 'cbmm' else 1e-9
-    singleton = case['init'] == 'singleton'
+    singleton = case['init'].startswith('singleton')
+    if case['init'] == 'singleton-inner' and len(lead) >= 2:
+        # singleton only in an inner leading axis: (F1, 1, K, N) against observations (F1, F2, N, D)
+        rr = np.random.default_rng([*case['rs'], 66])
+        s.init = gen.dirichlet_init(rr, (lead[0],) + (1,) * (len(lead) - 1), s.K, s.N)
     init_full = np.broadcast_to(s.init, s.aff_shape).copy()
 
     def run(data, init, sal, mask):
